@@ -35,6 +35,10 @@ def gen(rng, tier):
              'gap': rng.choice([0.0, 0.0, 0.0, 0.05, 0.3])}
         if kind == 'advance':
             m['fwd'] = rng.choice(['default', 'default', True, False])
+            # the final states take their own branch in the advance() of
+            # both component flavours
+            m['state'] = rng.choice(['AGENT_EXECUTING', 'AGENT_EXECUTING',
+                                     'FAILED', 'CANCELED', 'DONE'])
         else:
             m['fwd'] = rng.choice(['absent', False, True, True])
             m['origin'] = rng.choice(['absent', 'absent', 'own', 'other',
@@ -170,12 +174,14 @@ def run(seed, scenario, trace=None, tier='quick'):
                     st['sent'][m['id']] = {'m': m,
                                            'joined': set(st['joined'])}
                     if m['kind'] == 'advance':
+                        state = getattr(rps, m.get('state',
+                                                   'AGENT_EXECUTING'))
                         thing = {'uid': 'task.m%d' % m['id'], 'type': 'task',
-                                 'state': rps.AGENT_EXECUTING}
+                                 'state': rps.AGENT_SCHEDULING}
                         kw = dict()
                         if m['fwd'] != 'default':
                             kw['fwd'] = m['fwd']
-                        side.comp.advance(thing, rps.AGENT_EXECUTING,
+                        side.comp.advance(thing, state,
                                           publish=True, push=False, **kw)
                     else:
                         chan = rpc.CONTROL_PUBSUB \
